@@ -33,6 +33,7 @@ type Runner struct {
 	Mdl    []string
 	Failed bool
 	FailWhat string
+	FailKind string // oracle | disagreement
 
 	sizes    map[int]int     // object -> size
 	declared map[string]bool // "<hashInit>/<obj>"
@@ -52,6 +53,9 @@ type Runner struct {
 	g2retry      *Event
 	g1queued     bool
 	drained      bool // oracle-only: the store left the expected protocol and was driven to the end of a shutdown
+	// Hold: keep the finding of this case back (Held) instead of reporting it at once
+	Hold bool
+	Held *hx.Finding
 	// bookkeeping for C03: did an upload/refresh happen since the last commit by G1 started
 	dirtySinceCommitStart bool
 	commitInProgress      bool
@@ -171,9 +175,28 @@ func Code(err error) string {
 
 func (r *Runner) fail(kind, what, detail string) {
 	r.Failed = true
-	r.FailWhat = what
-	r.Run.Report(hx.Finding{Kind: kind, What: what, Detail: detail, Case: r.Case, Script: append([]string{}, r.Script...),
-		Impl: append([]string{}, r.Impl...), Model: append([]string{}, r.Mdl...)})
+	r.FailWhat, r.FailKind = what, kind
+	f := hx.Finding{Kind: kind, What: what, Detail: detail, Case: r.Case, Script: append([]string{}, r.Script...),
+		Impl: append([]string{}, r.Impl...), Model: append([]string{}, r.Mdl...)}
+	if r.Hold {
+		// the caller shrinks the script first and reports the smaller of the two (ReportHeld)
+		r.Held = &f
+		return
+	}
+	r.Run.Report(f)
+}
+
+// ReportHeld reports the finding of a case run with Hold, unless the shrunk replay `small` (nil: none)
+// reproduced it - that one has been reported by its own run then and comes first in the result.
+func (r *Runner) ReportHeld(small *Runner) {
+	if r.Held == nil {
+		return
+	}
+	if small != nil && small.Failed && small.FailWhat == r.FailWhat {
+		return
+	}
+	r.Run.Report(*r.Held)
+	r.Held = nil
 }
 
 // expect waits for the next event on ch; it must be of one of the kinds.
